@@ -100,6 +100,11 @@ func run(sc scenario, choose vs.Chooser, traceOn bool) (*trace, *vs.Sched) {
 			full := false
 			if p.Kind == "hang" {
 				vs.WaitDone(ctx)
+			} else if p.Kind == "ok-slow-to-abort" {
+				// succeeds after D unless cancelled; when cancelled it needs 2 more seconds to notice
+				if full = vs.SleepCtx(ctx, time.Duration(p.D)*unit); !full {
+					vs.Sleep(2 * unit)
+				}
 			} else {
 				full = vs.SleepCtx(ctx, time.Duration(p.D)*unit)
 			}
@@ -109,7 +114,7 @@ func run(sc scenario, choose vs.Chooser, traceOn bool) (*trace, *vs.Sched) {
 				a.result = "cancelled"
 				return nil, ctx.Err()
 			}
-			if p.Kind == "ok" {
+			if p.Kind == "ok" || p.Kind == "ok-slow-to-abort" {
 				a.result = "ok"
 				a.conn = &fakeConn{id: ti}
 				return a.conn, nil
@@ -197,7 +202,7 @@ func monitor(sc scenario, tr *trace, s *vs.Sched) (key, what string) {
 			if e.a.result == "fail" || e.a.result == "cancelled" {
 				failures++
 			}
-			if e.a.end-e.a.start > timeout {
+			if e.a.end-e.a.start > timeout && sc.Plans[max(e.a.target, 0)].Kind != "ok-slow-to-abort" {
 				return "attempt-timeout", fmt.Sprintf("attempt for target %d ran %v, Timeout is %v", e.a.target, e.a.end-e.a.start, timeout)
 			}
 		case "return":
@@ -241,7 +246,7 @@ func monitor(sc scenario, tr *trace, s *vs.Sched) (key, what string) {
 		// failure: legitimate only if cancelled, or nothing could succeed
 		if !cancelledFirst {
 			for i, p := range sc.Plans {
-				if p.Kind == "ok" && p.D < sc.Timeout {
+				if (p.Kind == "ok" || p.Kind == "ok-slow-to-abort") && p.D < sc.Timeout {
 					_ = i
 					return "error-despite-success", fmt.Sprintf("Dial failed with %v although target %d succeeds", tr.retErr, i)
 				}
@@ -295,7 +300,7 @@ func allDoneBefore(tr *trace, at time.Duration) bool { return tr.retAt <= at }
 
 // ---- scenarios and exploration ----
 
-var planDomain = []plan{{"ok", 0}, {"ok", 1}, {"ok", 3}, {"fail", 0}, {"fail", 1}, {"fail", 3}, {"hang", 0}, {"resolve-error", 0}}
+var planDomain = []plan{{"ok", 0}, {"ok", 1}, {"ok", 3}, {"fail", 0}, {"fail", 1}, {"fail", 3}, {"hang", 0}, {"resolve-error", 0}, {"ok-slow-to-abort", 3}}
 
 func scenarios(thorough bool) []scenario {
 	var out []scenario
